@@ -304,7 +304,7 @@ type EnumCtx struct {
 	res       *Result
 	deadline  time.Time
 	byKey     map[string]*Finding
-	distinct  map[string]struct{}
+	distinct  map[uint64]struct{}
 	Shard     int
 	NShards   int
 	Tier      string
@@ -333,9 +333,11 @@ func (c *EnumCtx) Explore(sub *Scenario, desc any) {
 		c.res.TimedOut = true
 	}
 	for k := range r.Outcomes {
-		key := sub.Name + "/" + k
-		if _, ok := c.distinct[key]; !ok {
-			c.distinct[key] = struct{}{}
+		h := fnv.New64a()
+		h.Write([]byte(sub.Name + "/" + k))
+		hk := h.Sum64()
+		if _, ok := c.distinct[hk]; !ok {
+			c.distinct[hk] = struct{}{}
 			c.res.Nontrivial++
 		}
 	}
@@ -381,8 +383,11 @@ func (c *EnumCtx) Case(key string, nontrivial bool, sample func() any) {
 	c.res.Cases++
 	c.res.Execs++
 	if nontrivial {
-		if _, ok := c.distinct[key]; !ok {
-			c.distinct[key] = struct{}{}
+		h := fnv.New64a()
+		h.Write([]byte(key))
+		k := h.Sum64()
+		if _, ok := c.distinct[k]; !ok {
+			c.distinct[k] = struct{}{}
 			c.res.Nontrivial++
 		}
 	}
@@ -426,7 +431,7 @@ func (c *EnumCtx) Expired() bool {
 
 func enumScenario(s *Scenario, tier string, shard, nshards int, deadline time.Time) *Result {
 	res := &Result{Scenario: s.Name, Shard: shard, Outcomes: map[string]int{}}
-	c := &EnumCtx{res: res, deadline: deadline, byKey: map[string]*Finding{}, distinct: map[string]struct{}{}, Shard: shard, NShards: nshards, Tier: tier}
+	c := &EnumCtx{res: res, deadline: deadline, byKey: map[string]*Finding{}, distinct: map[uint64]struct{}{}, Shard: shard, NShards: nshards, Tier: tier}
 	t0 := time.Now()
 	s.Enum(c)
 	for _, f := range c.byKey {
@@ -875,7 +880,7 @@ func confirmAndWrite(spec Spec, scs []*Scenario, f Finding) (string, bool) {
 	if s != nil && s.Body == nil && s.Replay != nil && len(f.Case) > 0 {
 		for i := 0; i < 3; i++ {
 			res := &Result{Scenario: s.Name, Outcomes: map[string]int{}}
-			c := &EnumCtx{res: res, deadline: time.Now().Add(time.Hour), byKey: map[string]*Finding{}, distinct: map[string]struct{}{}, Replaying: true, ReplayChoices: f.Choices}
+			c := &EnumCtx{res: res, deadline: time.Now().Add(time.Hour), byKey: map[string]*Finding{}, distinct: map[uint64]struct{}{}, Replaying: true, ReplayChoices: f.Choices}
 			s.Replay(c, f.Case)
 			if _, ok := c.byKey[f.Key]; !ok {
 				return "", false
@@ -943,7 +948,7 @@ func doReplay(spec Spec, path string) int {
 		}
 		if s.Replay != nil {
 			res := &Result{Scenario: s.Name, Outcomes: map[string]int{}}
-			c := &EnumCtx{res: res, deadline: time.Now().Add(time.Hour), byKey: map[string]*Finding{}, distinct: map[string]struct{}{}, Tier: tier, Replaying: true, ReplayChoices: rf.Choices}
+			c := &EnumCtx{res: res, deadline: time.Now().Add(time.Hour), byKey: map[string]*Finding{}, distinct: map[uint64]struct{}{}, Tier: tier, Replaying: true, ReplayChoices: rf.Choices}
 			s.Replay(c, rf.Case)
 			for _, l := range c.Trace {
 				fmt.Println(l)
